@@ -654,7 +654,7 @@ func (r *runner) run(o tlc.Opts, what string) {
 }
 
 func (d Driver) Run(c *core.Ctx) error {
-	c.Rule = "path scenarios: lattice curve path (lines, integer-ellipse arcs incl. rotated ones, quadratic/cubic Béziers; CurveGen) x exact rational matrix (48 curated: rotations by 90k, anisotropic scales, shears, reflections, unimodular near-singular, Pythagorean rotations and their products; or random integer matrices with entries -3..3, det != 0), with the images of all control points / arc way-points and ~90 winding samples computed by spec/Transform.tla; non-trivial = distinct (path, matrix) with a non-translation matrix and a sample of non-zero winding. algebra scenarios: every call history of the Matrix register machine up to the tier's length (17-letter alphabet quick, 37 thorough) with the exact register after every call; non-trivial = distinct histories of length >= 2. evaluations = Transform calls + matrix method calls"
+	c.Rule = "path scenarios: lattice curve path (lines, integer-ellipse arcs incl. rotated ones, quadratic/cubic Béziers; CurveGen) x exact rational matrix (52 curated: rotations by 90k, anisotropic scales, shears, reflections, unimodular near-singular, Pythagorean rotations and their products, uniform magnifications by 512, 500 and 1/512, 1/1024 combined with a rotation or shear; or random integer matrices with entries -3..3, det != 0), with the images of all control points / arc way-points and ~90 winding samples computed by spec/Transform.tla; non-trivial = distinct (path, matrix) with a non-translation matrix and a sample of non-zero winding. algebra scenarios: every call history of the Matrix register machine up to the tier's length (17-letter alphabet quick, 37 thorough) with the exact register after every call; non-trivial = distinct histories of length >= 2. evaluations = Transform calls + matrix method calls"
 	c.Assumptions = []string{
 		"paths are built through the public builder; control points are compared segment by segment only when the builder kept the command list (no collinear merge), the way-point and winding checks always apply",
 		"real matrices are compared with the exact rational register within 1e-9 relative (Pythagorean rotations are entered in degrees: atan2(3,4)*180/pi)",
@@ -688,7 +688,7 @@ func (d Driver) Run(c *core.Ctx) error {
 		add(tlc.Opts{Config: cfg("path", 10, all, 40, 2, "fixed", 0, "small", false), Seed: c.Seed + 2}, "path", false)
 		add(tlc.Opts{Config: cfg("path", 10, `{"L","A"}`, 60, 1, "random", 0, "small", false), Seed: c.Seed + 3}, "path", false)
 		add(tlc.Opts{Config: cfg("path", 20, `{"L","A"}`, 12, 1, "fixed", 0, "small", false), Seed: c.Seed + 4}, "path", false)
-		add(tlc.Opts{Config: cfg("path", 20, `{"L","A"}`, 1, 3, "fixed", 0, "small", false)}, "path", false) // 48 "propeller" paths x 48 matrices
+		add(tlc.Opts{Config: cfg("path", 20, `{"L","A"}`, 1, 3, "fixed", 0, "small", false)}, "path", false) // 48 "propeller" paths x 52 matrices
 		add(tlc.Opts{Config: cfg("algebra", 4, `{"L"}`, 1, 1, "one", 4, "small", false)}, "algebra", false)  // 17^4 histories
 		add(tlc.Opts{Config: cfg("algebra", 4, `{"L"}`, 1, 1, "one", 3, "full", false)}, "algebra", false)   // 37^3
 		add(tlc.Opts{Config: cfg("algebra", 4, `{"L"}`, 1, 1, "one", 6, "full", false), Simulate: "num=3000", Depth: 7, Seed: c.Seed, Workers: 4}, "algebra", false)
@@ -696,7 +696,7 @@ func (d Driver) Run(c *core.Ctx) error {
 		add(tlc.Opts{Config: cfg("path", 10, all, 9, 1, "fixed", 0, "small", false), Seed: c.Seed}, "path", false)
 		add(tlc.Opts{Config: cfg("path", 10, `{"L","A"}`, 8, 1, "fixed", 0, "small", false), Seed: c.Seed + 1}, "path", false)
 		add(tlc.Opts{Config: cfg("path", 10, all, 4, 2, "random", 0, "small", false), Seed: c.Seed + 2}, "path", false)
-		add(tlc.Opts{Config: cfg("path", 20, `{"L","A"}`, 1, 3, "few", 0, "small", false)}, "path", false)  // 48 "propeller" paths (same radii, different rotation) x 9 matrices
+		add(tlc.Opts{Config: cfg("path", 20, `{"L","A"}`, 1, 3, "few", 0, "small", false)}, "path", false)  // 48 "propeller" paths (same radii, different rotation) x 11 matrices
 		add(tlc.Opts{Config: cfg("algebra", 4, `{"L"}`, 1, 1, "one", 3, "small", false)}, "algebra", false) // all histories of length <= 3
 		add(tlc.Opts{Config: cfg("algebra", 4, `{"L"}`, 1, 1, "one", 5, "full", false), Simulate: "num=200", Depth: 6, Seed: c.Seed, Workers: 4}, "algebra", false)
 	}
